@@ -183,6 +183,25 @@ Theorem C04_protocol_names :
 Proof. vm_compute. reflexivity. Qed.
 Print Assumptions C04_protocol_names.
 
+(* ... and NO value of that byte fails the record (repair of the unnamed-protocol defect: before
+   it, a PROTOCOL byte of 146..254 failed its record and with it every later record of the
+   flowset, which all came out as padding): every byte decodes, to the variant with that
+   discriminant or to Unknown, consuming exactly the one byte *)
+Theorem C04_protocol_total : forall puf len b r,
+  from_field_type puf DProto len (b :: r) = Ok (VProto (proto_decode (bN b))) r.
+Proof. exact proto_total. Qed.
+Print Assumptions C04_protocol_total.
+
+(* the history that used to fail: template (PROTOCOL/1, L4_SRC_PORT/2), records 06 0035 | c8 0035 |
+   11 0050: three records, the second with protocol Unknown, nothing left as padding *)
+Example C04_unnamed_protocol_example :
+  parse_records true 3 [ {| tf_num := 4; tf_type := v9_from_u16 4; tf_len := 1 |}; {| tf_num := 7; tf_type := v9_from_u16 7; tf_len := 2 |} ]
+    [x06; x00; x35; xc8; x00; x35; x11; x00; x50]
+  = ([ [(v9_from_u16 4, VProto 6); (v9_from_u16 7, VNum (U16 53))];
+       [(v9_from_u16 4, VProto proto_unknown); (v9_from_u16 7, VNum (U16 53))];
+       [(v9_from_u16 4, VProto 17); (v9_from_u16 7, VNum (U16 80))] ]%N, []).
+Proof. vm_compute. reflexivity. Qed.
+
 (* ---- buffer level (imports kept local: they shadow names used above) ---- *)
 From NF Require Import Parser IxStream IxStreamFacts BufferFacts.
 
